@@ -1,2 +1,3 @@
 import TdmsProofs.Properties.C12
+import TdmsProofs.Properties.C16
 import TdmsProofs.Properties.C17
